@@ -13,7 +13,7 @@
   precondition the property states ("an element passed to an append/insert call is currently
   detached; the library does not re-parent").
 -/
-import AHP.Lemmas.DomNav
+import AHP.Lemmas.DomMove
 namespace AHP.C04
 open AHP AHP.Dom
 
@@ -366,6 +366,88 @@ theorem moving_calls_defined (w : World) (t c : Nat) (ct : DN) (rest : List DN) 
         cases indexOf r bs <;> simp
   exact ⟨h1, h1, h2 false, h2 true⟩
 
+/-- `removeBlocks(blocks)` and `removeChildren(children)` are defined for every element of the world and
+    all arguments (strings, children, non-children, elements that are not in the world at all): each
+    turn of the loop is a single-target call and leaves the target an element of the world. -/
+theorem removing_loops_defined (w : World) (t : Nat) (h : (w.find? t).isSome = true) (bs : List Blk) (cs : List Nat) :
+    (step w (.removeBlocks t bs)).isSome ∧ (step w (.removeChildren t cs)).isSome := by
+  constructor
+  · simp only [step, World.removeBlocks, Option.isSome_map]
+    exact removeBlocksLoop_defined t bs w h
+  · simp only [step, World.removeChildren, World.removeBlocks, Option.isSome_map]
+    exact removeBlocksLoop_defined t _ w h
+
+/-- `appendBlocks(blocks)` is defined on the domain the property states (`Dom.AppendDomain w t blocks`):
+    the target is an element of the world; the element arguments are pairwise distinct, each one is a
+    root of the world (currently detached) and does not contain the target. Text arguments are
+    unrestricted. (Every turn of the loop re-establishes the domain for the remaining arguments:
+    the other roots are untouched by an edit at `t`.) -/
+theorem appendBlocks_defined (w : World) (hw : Inv w) (t : Nat) (bs : List Blk) (hd : AppendDomain w t bs) :
+    (step w (.appendBlocks t bs)).isSome := by
+  simp only [step, World.appendBlocks, Option.isSome_map]
+  exact appendBlocksLoop_defined t bs w hw hd
+
+/-- `appendInnerHTML(html)` is defined for every element of an invariant world and every fragment: the
+    elements `createBlocksFromHTML` creates are distinct detached roots with fresh uids, so the domain
+    of the appending loop holds by construction. -/
+theorem appendInnerHTML_defined (w : World) (hw : Inv w) (t : Nat) (h : (w.find? t).isSome = true) (p : Parsed) :
+    (step w (.appendInnerHTML t p)).isSome := by
+  simp only [step, World.appendInnerHTML, Option.isSome_map]
+  exact appendBlocksLoop_defined t _ _ (fragment_world_Inv p hw) (fragment_domain w t p hw h)
+
+/-! ## hasChild / contains for element arguments
+
+  The code compares elements by uid (`AdvancedTag.__eq__`, `containsUid(other.uid)`). In an invariant
+  world an element is determined by its uid, so the two tests hold exactly for the elements that
+  *are* an element block of the receiver / lie in the receiver's subtree. -/
+
+/-- `hasChild(other)` for an element `other` of the world: True exactly when `other` (this very
+    element: same fields, same blocks) is one of the receiver's element blocks. -/
+theorem nav_hasChild_element (w : World) (hw : Inv w) (m : Meta) (bs : List DN) (he : (m, bs) ∈ elemsL w.roots)
+    (m' : Meta) (k' : List DN) (he' : (m', k') ∈ elemsL w.roots) :
+    hasChild m m'.id = true ↔ DN.el m' k' ∈ bs := by
+  rw [(nav_children w hw m bs he).2.2.2.1 m'.id]
+  simp only [List.contains_iff_mem]
+  constructor
+  · intro h
+    obtain ⟨m2, k2, hmem, hid⟩ := elemIds_mem_el bs h
+    have h2 : (m2, k2) ∈ elemsL w.roots :=
+      elemsL_trans w.roots he (by simp only [elems_el, List.mem_cons]; exact Or.inr (elemsL_of_block hmem))
+    have := elem_unique w.roots hw.nodup h2 he' hid
+    simp only [Prod.mk.injEq] at this
+    rw [← this.1, ← this.2]; exact hmem
+  · intro h
+    induction bs with
+    | nil => cases h
+    | cons b bs ih =>
+      clear ih
+      have : ∀ (l : List DN), DN.el m' k' ∈ l → m'.id ∈ elemIds l := by
+        intro l
+        induction l with
+        | nil => intro h; cases h
+        | cons x xs ih =>
+          intro h
+          cases h with
+          | head => simp
+          | tail _ h => cases x <;> simp [ih h]
+      exact this _ h
+
+/-- `contains(other)` for an element `other` of the world: True exactly when `other` is the receiver
+    itself or an element of its subtree. -/
+theorem nav_contains_element (w : World) (hw : Inv w) (m : Meta) (bs : List DN) (he : (m, bs) ∈ elemsL w.roots)
+    (m' : Meta) (k' : List DN) (he' : (m', k') ∈ elemsL w.roots) :
+    containsUid m bs m'.id = true ↔ (m', k') ∈ elems (.el m bs) := by
+  rw [(nav_descendants m bs).2 m'.id]
+  simp only [List.contains_iff_mem]
+  constructor
+  · intro h
+    obtain ⟨e, hmem, hid⟩ := ids_mem_elems (.el m bs) h
+    have h2 : e ∈ elemsL w.roots := elemsL_trans w.roots he hmem
+    have := elem_unique w.roots hw.nodup h2 he' hid
+    rw [← this]; exact hmem
+  · intro h
+    exact elems_id_mem (.el m bs) h
+
 /-! ## Non-vacuity: a concrete history inside the model, starting from built trees -/
 
 def exSeed : FN := .el "div".toList [] false [.text "a".toList, .el "b".toList [] false [.text "x".toList], .el "br".toList [] false []]
@@ -379,5 +461,40 @@ example : ∃ w', run (initWorld true exSeed exSpares) exOps = some w' ∧ Inv w
   cases h : run (initWorld true exSeed exSpares) exOps with
   | none => exact absurd h (by decide)
   | some w' => exact ⟨w', rfl, invariant_after_any_history true exSeed exSpares exOps w' rfl (by decide) h⟩
+
+/-- the loop calls on a concrete world: two distinct detached roots and a text appended in one call -/
+example : AppendDomain (initWorld true exSeed exSpares) 0 [.elm 3, .txt "a".toList, .elm 4] :=
+  ⟨by decide, by decide, by decide⟩
+example : (step (initWorld true exSeed exSpares) (.appendBlocks 0 [.elm 3, .txt "a".toList, .elm 4])).isSome = true :=
+  appendBlocks_defined _ (initial_world_inv true exSeed exSpares (by decide) (by decide)) 0 _ ⟨by decide, by decide, by decide⟩
+/-- outside the domain (the same element twice) the loop does leave the model -/
+example : (step (initWorld true exSeed exSpares) (.appendBlocks 0 [.elm 3, .elm 3])).isSome = false := by decide
+example : (step (initWorld true exSeed exSpares) (.removeChildren 0 [1, 7, 1])).isSome = true :=
+  (removing_loops_defined _ 0 (by decide) [] _).2
+example : (step (initWorld true exSeed exSpares)
+    (.appendInnerHTML 1 (.multi [.text "hi".toList, .el "i".toList [] false [], .el "u".toList [] false []]))).isSome = true :=
+  appendInnerHTML_defined _ (initial_world_inv true exSeed exSpares (by decide) (by decide)) 1 (by decide) _
+/-- element arguments of `hasChild` / `contains`: elements 0 and 1 (`<b>`) of the initial world; `hasChild`
+    answers True, so 1 *is* an element block of 0, and `contains` answers True as well -/
+example : ∃ e e', e ∈ elemsL (initWorld true exSeed exSpares).roots ∧ e' ∈ elemsL (initWorld true exSeed exSpares).roots ∧
+    DN.el e'.1 e'.2 ∈ e.2 ∧ containsUid e.1 e.2 e'.1.id = true := by
+  have hw := initial_world_inv true exSeed exSpares (by decide) (by decide)
+  cases h0 : (initWorld true exSeed exSpares).find? 0 with
+  | none => exact absurd h0 (by decide)
+  | some e =>
+    cases h1 : (initWorld true exSeed exSpares).find? 1 with
+    | none => exact absurd h1 (by decide)
+    | some e' =>
+      have h : ((initWorld true exSeed exSpares).find? 0).bind (fun e => ((initWorld true exSeed exSpares).find? 1).map
+          (fun e' => hasChild e.1 e'.1.id)) = some true := by decide
+      rw [h0, h1] at h
+      simp only [Option.bind_some, Option.map_some, Option.some.injEq] at h
+      have he := findL?_mem_elemsL 0 _ h0
+      have he' := findL?_mem_elemsL 1 _ h1
+      have hb := (nav_hasChild_element _ hw e.1 e.2 he e'.1 e'.2 he').mp h
+      refine ⟨e, e', he, he', hb, ?_⟩
+      rw [nav_contains_element _ hw e.1 e.2 he e'.1 e'.2 he']
+      simp only [elems_el, List.mem_cons]
+      exact Or.inr (elemsL_of_block hb)
 
 end AHP.C04
